@@ -166,3 +166,59 @@ def run(ctx, rep):
     from_str_ty = [ga for (n, a, asm, fn, ga) in calls if n.endswith('serde_json::from_str')]
     okt = bool(from_str_ty) and all(g and any('ParamsConfig' in x for x in g) for g in from_str_ty)
     rep.ob('R19.5', 'file-read-type', okt, f'the -i file is deserialised as {from_str_ty[:1]}')
+
+    # ---- R19.6 the listing prints every entry (valid or not) ---------------------------------------------------
+    for p, b in B.bodies.items():
+        if b.kind != 'Fn' or 'terminal' not in p:
+            continue
+        loops = b.natural_loops()
+        printing = {bi for bi, t in b.calls() if (callee_name(t) or '').endswith('io::_print')}
+        n_loops = 0
+        for h, blocks in loops.items():
+            nexts = [bi for bi in blocks if b.blocks[bi]['term']['k'] == 'call' and (callee_name(b.blocks[bi]['term']) or '').endswith('::next')]
+            if not nexts:
+                continue
+            n_loops += 1
+            # from the Some-branch of the element switch, every path back to the header passes a print
+            sw = [bi for bi in blocks if b.blocks[bi]['term']['k'] == 'switch' and any(v == 1 for v, _ in b.blocks[bi]['term']['targets'])]
+            ok = None
+            for bi in sw:
+                tgt = [t for v, t in b.blocks[bi]['term']['targets'] if v == 1]
+                if not tgt or not b.dominates(nexts[0], bi):
+                    continue
+                # DFS avoiding printing blocks
+                seen = set()
+                st = [tgt[0]]
+                reach_header = False
+                while st:
+                    x = st.pop()
+                    if x in seen or x not in blocks:
+                        continue
+                    seen.add(x)
+                    if x in printing:
+                        continue
+                    for sx in b.succs(x):
+                        if sx == h:
+                            reach_header = True
+                        st.append(sx)
+                ok = not reach_header
+                break
+            rep.ob('R19.6', f'listing-prints-every-element:{last_seg(p)}:loop', ok,
+                   'every iteration of the listing loop prints a line' if ok else
+                   'an element of the result can be skipped without printing anything (e.g. Invalid entries vanish from the listing)')
+        rep.floor('listing loops', n_loops, 2)
+    # ---- R19.7 output files are created truncating ----------------------------------------------------------------
+    for (n, a, asm, fn, ga) in calls:
+        if n.endswith('serde_json::to_writer'):
+            w = a[0]
+            creates = [x for x in subterms(w) if x and x[0] == 'app' and x[1].endswith('fs::File::create')]
+            opens = [x for x in subterms(w) if x and x[0] == 'app' and x[1].endswith('OpenOptions::open')]
+            trunc = [x for x in subterms(w) if x and x[0] == 'app' and x[1].endswith('OpenOptions::truncate')]
+            if creates:
+                rep.ob('R19.7', f'output-truncated:{fn}', True, 'written through File::create (truncates an existing file)')
+            elif opens:
+                rep.ob('R19.7', f'output-truncated:{fn}', bool(trunc),
+                       'OpenOptions with truncate(true)' if trunc else
+                       'the output file is opened without truncation: stale bytes of a longer previous file survive and the JSON does not decode')
+            else:
+                rep.ob('R19.7', f'output-truncated:{fn}', None, f'writer {show(w, maxd=3)[:80]}')
